@@ -138,15 +138,19 @@ def unknown_options() -> list[dict]:
         if isinstance(default, bool):
             settings.append({field.name: not default})
         elif isinstance(default, int):
-            settings += [{field.name: value} for value in (0, 1, default * 2 + 1) if value != default]
+            # (a large default is a size / an interval / a limit: halve and double it - zero there means "never sleep" or
+            # "hold nothing", configurations whose consequences are the option's own)
+            values = (default // 2, default * 2 + 1) if default >= 10 else (0, 1, default * 2 + 1)
+            settings += [{field.name: value} for value in values if value != default]
         elif isinstance(default, float):
-            settings += [{field.name: value} for value in (0.0, default / 2, default * 10) if value != default]
+            values = (default / 2, default * 10) if default >= 10 else (0.0, default / 2, default * 10)
+            settings += [{field.name: value} for value in values if value != default]
         elif isinstance(default, str):
             settings += [{field.name: value} for value in ("", default + "x")]
         elif default is None and field.type in ("bool | None", "bool"):
             settings += [{field.name: True}, {field.name: False}]
         elif default is None and str(field.type).startswith(("int", "float")):
-            settings += [{field.name: value} for value in (0, 1, 5, 1000)]
+            settings += [{field.name: value} for value in (5, 1000)]
     return settings
 
 
